@@ -3,6 +3,12 @@
 //!
 //! Request: {"tpl": source} or {"expr": source}, "ctx": json, "debug": bool (default false),
 //!          "undefined": "lenient|strict|semistrict|chainable"
+//!          or {"history": [op..], "ctx": json}: an operation sequence on ONE environment
+//!             {"op":"syntax","block":[s,e],"var":[s,e],"comment":[s,e]} | {"op":"syntax_default"}
+//!             {"op":"ws","trim_blocks":b,"lstrip_blocks":b,"keep_trailing_newline":b}
+//!             {"op":"add","name":n,"src":s,"owned":bool}
+//!             {"op":"check","name":n} | {"op":"check_str","src":s} | {"op":"check_expr","src":s}
+//!          -> {"results": [one entry per check op, in the format below], "globals": [..]}
 //! Response: {"load_err": code} when the source does not compile, otherwise
 //!   {"asked": [keys the context object was asked for, sorted, distinct],
 //!    "flat": undeclared_variables(false), "nested": undeclared_variables(true),
@@ -43,7 +49,118 @@ fn sorted(it: impl IntoIterator<Item = String>) -> Vec<String> {
     v
 }
 
+fn check_template(tmpl: &minijinja::Template<'_, '_>, ctxv: &Value) -> J {
+    let flat = sorted(tmpl.undeclared_variables(false));
+    let nested = sorted(tmpl.undeclared_variables(true));
+    let asked = Arc::new(Mutex::new(vec![]));
+    let rec = Value::from_object(Recorder { inner: ctxv.clone(), asked: asked.clone() });
+    let r = match tmpl.render(rec) {
+        Ok(s) => json!({"ok": s}),
+        Err(e) => json!({"err": mjverif::err_code(e.kind())}),
+    };
+    let a = sorted(asked.lock().unwrap().clone());
+    json!({"asked": a, "flat": flat, "nested": nested, "render": r})
+}
+
+fn pair(op: &J, key: &str, d: (&str, &str)) -> (String, String) {
+    let a = op.get(key).and_then(|x| x.as_array());
+    match a {
+        Some(a) if a.len() == 2 => (
+            a[0].as_str().unwrap_or(d.0).to_string(),
+            a[1].as_str().unwrap_or(d.1).to_string(),
+        ),
+        _ => (d.0.to_string(), d.1.to_string()),
+    }
+}
+
+fn run_history<'a>(req: &'a J) -> J {
+    let mut env: Environment<'a> = Environment::new();
+    minijinja_contrib::add_to_environment(&mut env);
+    env.set_debug(false);
+    let ctxv = Value::from(minijinja::value::Serde(req.get("ctx").cloned().unwrap_or(J::Null)));
+    let mut results = vec![];
+    let ops: &'a [J] = req.get("history").and_then(|x| x.as_array()).map(|x| x.as_slice()).unwrap_or(&[]);
+    for op in ops {
+        match op.get("op").and_then(|x| x.as_str()).unwrap_or("") {
+            "syntax" => {
+                let b = pair(op, "block", ("{%", "%}"));
+                let v = pair(op, "var", ("{{", "}}"));
+                let c = pair(op, "comment", ("{#", "#}"));
+                match minijinja::syntax::SyntaxConfig::builder()
+                    .block_delimiters(b.0, b.1)
+                    .variable_delimiters(v.0, v.1)
+                    .comment_delimiters(c.0, c.1)
+                    .build()
+                {
+                    Ok(cfg) => env.set_syntax(cfg),
+                    Err(e) => results.push(json!({"config_err": mjverif::err_code(e.kind())})),
+                }
+            }
+            "syntax_default" => env.set_syntax(Default::default()),
+            "ws" => {
+                env.set_trim_blocks(op["trim_blocks"].as_bool().unwrap_or(false));
+                env.set_lstrip_blocks(op["lstrip_blocks"].as_bool().unwrap_or(false));
+                env.set_keep_trailing_newline(op["keep_trailing_newline"].as_bool().unwrap_or(false));
+            }
+            "add" => {
+                let name = op.get("name").and_then(|x| x.as_str()).unwrap_or("t");
+                let src = op.get("src").and_then(|x| x.as_str()).unwrap_or("");
+                let r = if op.get("owned").and_then(|x| x.as_bool()).unwrap_or(false) {
+                    env.add_template_owned(name.to_string(), src.to_string())
+                } else {
+                    env.add_template(name, src)
+                };
+                if let Err(e) = r {
+                    results.push(json!({"add_err": mjverif::err_code(e.kind()), "name": name}));
+                }
+            }
+            "check" => {
+                let name = op.get("name").and_then(|x| x.as_str()).unwrap_or("t");
+                match env.get_template(name) {
+                    Ok(t) => {
+                        let mut r = check_template(&t, &ctxv);
+                        r["name"] = json!(name);
+                        results.push(r);
+                    }
+                    Err(e) => results.push(json!({"load_err": mjverif::err_code(e.kind()), "name": name})),
+                }
+            }
+            "check_str" => {
+                let src = op.get("src").and_then(|x| x.as_str()).unwrap_or("");
+                match env.template_from_str(src) {
+                    Ok(t) => results.push(check_template(&t, &ctxv)),
+                    Err(e) => results.push(json!({"load_err": mjverif::err_code(e.kind())})),
+                }
+            }
+            "check_expr" => {
+                let src = op.get("src").and_then(|x| x.as_str()).unwrap_or("");
+                match env.compile_expression(src) {
+                    Ok(expr) => {
+                        let flat = sorted(expr.undeclared_variables(false));
+                        let nested = sorted(expr.undeclared_variables(true));
+                        let asked = Arc::new(Mutex::new(vec![]));
+                        let rec = Value::from_object(Recorder { inner: ctxv.clone(), asked: asked.clone() });
+                        let r = match expr.eval(rec) {
+                            Ok(v) => json!({"ok": v.to_string()}),
+                            Err(e) => json!({"err": mjverif::err_code(e.kind())}),
+                        };
+                        let a = sorted(asked.lock().unwrap().clone());
+                        results.push(json!({"asked": a, "flat": flat, "nested": nested, "render": r}));
+                    }
+                    Err(e) => results.push(json!({"load_err": mjverif::err_code(e.kind())})),
+                }
+            }
+            _ => {}
+        }
+    }
+    let globals = sorted(env.globals().map(|x| x.0.to_string()));
+    json!({"results": results, "globals": globals})
+}
+
 fn run(req: &J) -> J {
+    if req.get("history").is_some() {
+        return run_history(req);
+    }
     let mut env = Environment::new();
     minijinja_contrib::add_to_environment(&mut env);
     env.set_debug(req.get("debug").and_then(|x| x.as_bool()).unwrap_or(false));
